@@ -402,6 +402,9 @@ void UtilContext::print16(const char *token)
 
     printf(" %04x", num);
 
+    // Stop instead of wrapping past the top of the 32 bit address space.
+    if (start > 0xfffffffd) { break; }
+
     start = start + 2;
   }
 
@@ -465,6 +468,9 @@ void UtilContext::print32(const char *token)
     }
 
     printf(" %08x", num);
+
+    // Stop instead of wrapping past the top of the 32 bit address space.
+    if (start > 0xfffffffb) { break; }
 
     start = start + 4;
   }
